@@ -2,6 +2,7 @@ import PsVerif.Driver.Pure
 import PsVerif.Driver.Stateful
 import PsVerif.Driver.Abs
 import PsVerif.Driver.ScriptD
+import PsVerif.Driver.Registry
 /-
 psdriver: one request per line on stdin, one reply per line on stdout.
 The replies are computed by the SAME definitions the theorems in PsVerif/Props are about.
@@ -11,6 +12,7 @@ open PsVerif.Driver PsVerif.Model
 structure DState where
   rates : RateStore := []
   abs : AbsState := .none
+  reg : PsVerif.Model.Service.Reg := ⟨[], []⟩
 
 def step (st : DState) (ws : List String) : DState × String :=
   match handlePure ws with
@@ -24,6 +26,9 @@ def step (st : DState) (ws : List String) : DState × String :=
   | none =>
   match handleAbs st.abs ws with
   | some (a, r) => ({ st with abs := a }, r)
+  | none =>
+  match handleRegistry st.reg ws with
+  | some (g, r) => ({ st with reg := g }, r)
   | none => (st, "bad-op")
 
 partial def loop (hin hout : IO.FS.Stream) (st : DState) : IO Unit := do
